@@ -1,0 +1,14 @@
+//go:build verif
+
+package string_reverse
+
+// Contracts checked by /verif/govc (see /verif/DESIGN.md). Comment-only file.
+
+//@ spec revFqdn(host string) string := abstract
+
+//@ func ReverseFqdnHost
+//@   props C10
+//@   nopanic
+//@   modifies nothing
+//@   loop 1 invariant[cursors_inside_the_runes] 0 <= i && j < len(r) && i + j == len(r) - 1
+//@   assumes[names_the_reversed_host] result0 == revFqdn(host)
